@@ -90,6 +90,37 @@ def check_primitives(report: Report, repo: Repo) -> None:
         want = bs if not isinstance(B, Obj) else TM.term_of(B)
         ok = (TM.expr_equal(src, want) is True) if not isinstance(B, Obj) else (src == want)
         report.add("R2-siblings", cons + "::saved", ok, "every branch of the tracing special-case must save exactly bwd_scale (as a tensor or proxy)", fmt(src), fmt(want))
+    # history independence: the same factor used again with a tensor of another dtype (module-level
+    # memoisation keyed by the factor alone would hand back the first call's constant)
+    try:
+        for factor in (bs, sp.Rational(1, 4)):
+            seen_dt = []
+            for xn in ("X1", "X2"):
+                ctx = Obj("torch.autograd.function.FunctionCtx", term=T("param", ("ctx",)))
+                it.events = []
+                it.call_function(fwd, [ctx, P(xn, None), fs, factor], {})
+                saves = [e for e in it.events if e.kind == "callv" and "save_for_backward" in fmt(e["callee"])]
+                for e in saves:
+                    for g_, leaf in TM.leaves(e["args"][0]):
+                        seen_dt.append((xn, getattr(leaf, "dtype", None), getattr(leaf, "const", None)))
+            ok = bool(seen_dt) and all(dt == ("same", xn) and TM.expr_equal(c, factor) is True for xn, dt, c in seen_dt)
+            report.add("R2-siblings", f"{SCALE}::_ScaledGrad.forward::saved-dtype-history", ok, f"two calls with the same backward factor ({fmt(factor)}) and tensors of different dtypes: each call must save the factor in the dtype of *its own* tensor, whatever was called before", str(seen_dt)[:300], "[(X1, dtype of X1), (X2, dtype of X2)]")
+    except Unsupported as e:
+        report.add("R2-siblings", f"{SCALE}::_ScaledGrad.forward::saved-dtype-history", None, f"outside fragment: {e}")
+    # zero and negative factors are passed through unchanged (concrete values, both primitives)
+    for name in ("scale_fwd", "scale_bwd"):
+        f = it.get_global(SCALE, name)
+        for val in (0, -2, sp.Rational(-1, 3)):
+            it.events = []
+            try:
+                it.call_function(f, [P("x", None), val], {})
+            except Unsupported as e:
+                report.add("R1-primitives", f"{SCALE}::{name}[factor={val}]", None, f"outside fragment: {e}")
+                continue
+            evs = [e for e in it.events if e.kind == "scale"]
+            want = (val, 1) if name == "scale_fwd" else (1, val)
+            ok = len(evs) == 1 and not evs[0].guard and TM.expr_equal(evs[0]["fwd"], want[0]) is True and TM.expr_equal(evs[0]["bwd"], want[1]) is True
+            report.add("R1-primitives", f"{SCALE}::{name}[factor={val}]", ok, f"{name}(x, {val}): zero and negative factors are applied as given (no defaulting, abs or clamp)", [(fmt(e["fwd"]), fmt(e["bwd"])) for e in evs], [want], nontrivial=False)
     # backward
     ctx = Obj("torch.autograd.function.FunctionCtx", attrs={"saved_tensors": (P("saved", None),)}, term=T("param", ("ctx",)))
     g = P("grad_Y", None)
